@@ -309,8 +309,13 @@ func valueIte(c *Term, a, b *Value) *Value {
 		return a
 	}
 	if a.K != b.K {
-		if a.K == VFunc && b.K == VFunc {
-			return a
+		// a known function value merged with an unknown one (abstract id): the result is an unknown
+		// function value; calls through it need a contract (function type / `Func#name`)
+		if a.K == VFunc && b.K == VScalar && b.S != nil && b.S.Sort == SInt {
+			return &Value{K: VScalar, T: b.T, S: Ite(c, funcValID(a), b.S)}
+		}
+		if b.K == VFunc && a.K == VScalar && a.S != nil && a.S.Sort == SInt {
+			return &Value{K: VScalar, T: a.T, S: Ite(c, a.S, funcValID(b))}
 		}
 		panic(unsupported(fmt.Sprintf("merge of values with different shapes (%d vs %d)", a.K, b.K)))
 	}
@@ -331,7 +336,7 @@ func valueIte(c *Term, a, b *Value) *Value {
 		if a.Fn == b.Fn {
 			return a
 		}
-		panic(unsupported("merge of distinct function values"))
+		return &Value{K: VScalar, T: a.T, S: Ite(c, funcValID(a), funcValID(b))}
 	case VNone:
 		return a
 	}
